@@ -1,2 +1,10 @@
 import Ufw.Props.C01
-#print axioms Ufw.Props.C01.uninitialised_refuses
+#print axioms Ufw.Props.C01.set_success_inv
+#print axioms Ufw.Props.C01.set_get
+#print axioms Ufw.Props.C01.checked_set_get
+#print axioms Ufw.Props.C01.set_storage
+#print axioms Ufw.Props.C01.set_refused_unchanged
+#print axioms Ufw.Props.C01.set_bad_handle
+#print axioms Ufw.Props.C01.set_refuses_invalid
+#print axioms Ufw.Props.C01.set_refuses_bad_float
+#print axioms Ufw.Props.C01.unsafe_eq_checked
